@@ -296,7 +296,7 @@ func c07Run(c *Ctx) {
 	g := newGen()
 	d := 1
 	c.Bound("seed_cost", fmt.Sprint(d))
-	c.Bound("mutations_per_document", "1")
+	c.Bound("mutations_per_document", map[bool]string{true: "1", false: "1 (2 on the skeleton seeds)"}[c.Quick()])
 	for _, kind := range allKinds {
 		typ := c07KindType[kind]
 		routes := routesOf(kind, 0)
@@ -311,6 +311,21 @@ func c07Run(c *Ctx) {
 			c07Mutants(st.v, func(text, gen string, tot bool) {
 				run(c07Case{Type: typ, Input: text, Gen: gen, Totality: tot})
 			})
+			// thorough: two mutations (the second applied to every single mutant of the skeleton seeds)
+			if !c.Quick() && st.cost == 0 {
+				c07Mutants(st.v, func(text, gen string, tot bool) {
+					if tot {
+						return
+					}
+					v, err := parseJSON([]byte(text))
+					if err != nil {
+						return
+					}
+					c07Mutants(v, func(text2, gen2 string, tot2 bool) {
+						run(c07Case{Type: typ, Input: text2, Gen: gen + "+" + gen2, Totality: tot2})
+					})
+				})
+			}
 			// the same mutants below the root (first route): other decoders see them as members
 			if len(routes) > 0 && kind != "swagger" {
 				vals, _ := routes[0].wrapAll(st.v)
